@@ -232,9 +232,9 @@ class Ctx:
             if r == z3.unknown and not quick:
                 r, m = fresh(self.timeout_ms)
         else:
-            r, m = fresh(min(5000, self.timeout_ms) if quick else min(6000, self.timeout_ms))
+            r, m = fresh(min(2500, self.timeout_ms) if quick else min(6000, self.timeout_ms))
             if r == z3.unknown:
-                r, m = bitblast(min(8000 if quick else 30000, self.timeout_ms))
+                r, m = bitblast(min(4000 if quick else 30000, self.timeout_ms))
             if r == z3.unknown and not quick:
                 r, m = fresh(self.timeout_ms)
             if r == z3.unknown and not quick:
@@ -846,6 +846,31 @@ def exact_div(a, b, floor=True):
     return mk(q, -m - 1, m + 1)
 
 
+def _trailing_zeros(e):
+    """number of low bits of the term that are syntactically zero (x << k after simplification is Concat(.., 0_k))"""
+    if z3.is_bv_value(e):
+        v = e.as_long()
+        return e.size() if v == 0 else (v & -v).bit_length() - 1
+    if z3.is_app(e) and e.decl().kind() == z3.Z3_OP_CONCAT:
+        last = e.arg(e.num_args() - 1)
+        if z3.is_bv_value(last) and last.as_long() == 0:
+            return last.size()
+    return 0
+
+
+def _disjoint_join(xa, la, ha, xb, lb, hb, w):
+    """(x << k) | y with 0 <= y < 2^k is the concatenation x:y -- build it as such, so that a field assembled by the
+    code with chain() is the same term as the oracle's concatenation of the encoding fields"""
+    if la < 0 or lb < 0:
+        return None
+    for p, q, qh in ((xa, xb, hb), (xb, xa, ha)):
+        ps = z3.simplify(p)
+        k = _trailing_zeros(ps)
+        if 0 < k < w and qh < (1 << k):
+            return z3.Concat(z3.Extract(w - 1, k, ps), z3.Extract(k - 1, 0, q))
+    return None
+
+
 def arith(kind, a, b):
     (ea, la, ha), (eb, lb, hb) = a, b
     if kind == 'add':
@@ -933,7 +958,9 @@ def arith(kind, a, b):
     elif kind == 'and':
         e = xa & xb
     elif kind == 'or':
-        e = xa | xb
+        e = _disjoint_join(xa, la, ha, xb, lb, hb, w)
+        if e is None:
+            e = xa | xb
     elif kind == 'xor':
         e = xa ^ xb
     elif kind == 'shl':
